@@ -307,4 +307,794 @@ example : objectValues (.obj [([97], .null), ([98], .bool true)]) = .arr .enum [
 example : pruneArray (.arr .plain [.null, .bool true]) = .arr .plain [.bool true] := rfl
 example : filterArray (fun _ => .ok (.bool true)) (.arr .plain [.null, .bool true]) = .ok (.arr .plain [.bool true]) := rfl
 
+/-! ### … lifted to the reference semantics `seval` -/
+
+/-- an outcome that, when it is an array, holds no null -/
+def NoNullResult (r : Res Val) : Prop := ∀ tag ys, r = .ok (.arr tag ys) → ∀ y ∈ ys, y.isNull = false
+
+theorem bind_eq_ok {α β} {x : Res α} {f : α → Res β} {b : β} (h : (x >>= f) = .ok b) :
+    ∃ a, x = .ok a ∧ f a = .ok b := by
+  cases x with
+  | ok a => exact ⟨a, rfl, h⟩
+  | _ => cases h
+
+theorem seval_proj_no_null (root : Val) (l r : Tree) (cur : Val) (env : Env) :
+    NoNullResult (seval root (.proj l r) cur env) := by
+  intro tag ys h
+  simp only [seval] at h
+  obtain ⟨a, _, h2⟩ := bind_eq_ok h
+  exact projectArray_no_null _ a tag ys h2
+
+/-- a slice projection: a string slice is handed to the right-hand side as it is, so the statement is for the
+    case where the value of `l` is not a string -/
+theorem seval_sliceProj_no_null (root : Val) (l r : Tree) (cur : Val) (env : Env)
+    (hs : ∀ s, seval root l cur env ≠ .ok (.str s)) :
+    NoNullResult (seval root (.sliceProj l r) cur env) := by
+  intro tag ys h
+  simp only [seval] at h
+  obtain ⟨a, ha, h2⟩ := bind_eq_ok h
+  cases a with
+  | str s => exact absurd ha (hs s)
+  | _ => exact projectArray_no_null _ _ tag ys h2
+
+theorem seval_flatProj_no_null (root : Val) (l r : Tree) (cur : Val) (env : Env) :
+    NoNullResult (seval root (.flatProj l r) cur env) := by
+  intro tag ys h
+  simp only [seval] at h
+  obtain ⟨a, _, h2⟩ := bind_eq_ok h
+  exact flattenAndProjectArray_no_null _ a tag ys h2
+
+theorem seval_filterProj_no_null (root : Val) (l c r : Tree) (cur : Val) (env : Env) :
+    NoNullResult (seval root (.filterProj l c r) cur env) := by
+  intro tag ys h
+  simp only [seval] at h
+  obtain ⟨a, _, h2⟩ := bind_eq_ok h
+  exact filterAndProjectArray_no_null _ _ a tag ys h2
+
+theorem seval_valueProj_no_null (root : Val) (l r : Tree) (cur : Val) (env : Env) :
+    NoNullResult (seval root (.valueProj l r) cur env) := by
+  intro tag ys h
+  simp only [seval] at h
+  obtain ⟨a, _, h2⟩ := bind_eq_ok h
+  exact projectObject_no_null _ a tag ys h2
+
+theorem seval_prune_no_null (root : Val) (l : Tree) (cur : Val) (env : Env) :
+    NoNullResult (seval root (.prune l) cur env) := by
+  intro tag ys h
+  simp only [seval] at h
+  obtain ⟨a, _, h2⟩ := bind_eq_ok h
+  simp only [Res.pure_eq, Res.ok.injEq] at h2
+  exact pruneArray_no_null a tag ys h2
+
+/-- **the six projection forms of the reference syntax omit null results** -/
+theorem seval_proj_forms_no_null (root : Val) (l c r : Tree) (cur : Val) (env : Env) :
+    NoNullResult (seval root (.proj l r) cur env) ∧
+    ((∀ s, seval root l cur env ≠ .ok (.str s)) → NoNullResult (seval root (.sliceProj l r) cur env)) ∧
+    NoNullResult (seval root (.flatProj l r) cur env) ∧
+    NoNullResult (seval root (.filterProj l c r) cur env) ∧
+    NoNullResult (seval root (.valueProj l r) cur env) ∧
+    NoNullResult (seval root (.prune l) cur env) :=
+  ⟨seval_proj_no_null root l r cur env, seval_sliceProj_no_null root l r cur env,
+   seval_flatProj_no_null root l r cur env, seval_filterProj_no_null root l c r cur env,
+   seval_valueProj_no_null root l r cur env, seval_prune_no_null root l cur env⟩
+
+/-- non-vacuity: `@[*].a` on `[{"a":1},{"b":2},{"a":null}]` is `[1]` -/
+example : seval .null (.proj .current (.field [97]))
+    (.arr .plain [.obj [([97], .num (.int .int 1))], .obj [([98], .num (.int .int 2))], .obj [([97], .null)]]) []
+    = .ok (.arr .plain [.num (.int .int 1)]) := rfl
+/-- the string case of a slice projection is not an array at all: `"abc"[0:2]` followed by `@` -/
+example : seval .null (.sliceProj (.slice 0 2) .current) (.str [97, 98, 99]) [] = .ok (.str [97, 98]) := rfl
+
+/-! ### … and to the Go-shaped evaluator, for the sixteen projection node types -/
+
+theorem ieval_projectArray_no_null (root : Val) (l r : INode) (cur : Val) (env : Env)
+    (hs : l.isSlice = true → ∀ s, ieval root l cur env ≠ .ok (.str s)) :
+    NoNullResult (ieval root (.projectArray l r) cur env) := by
+  rw [ieval_desugar]
+  simp only [desugar]
+  cases hsl : l.isSlice
+  · simp only [Bool.false_eq_true, if_false]
+    exact seval_proj_no_null _ _ _ _ _
+  · simp only [if_true]
+    apply seval_sliceProj_no_null
+    intro s
+    rw [← ieval_desugar]
+    exact hs hsl s
+
+theorem ieval_proj_forms_no_null (root : Val) (l c r : INode) (cur : Val) (env : Env) :
+    ((l.isSlice = true → ∀ s, ieval root l cur env ≠ .ok (.str s)) →
+      NoNullResult (ieval root (.projectArray l r) cur env)) ∧
+    NoNullResult (ieval root (.projectArrayCurrent r) cur env) ∧
+    NoNullResult (ieval root (.filter l c) cur env) ∧
+    NoNullResult (ieval root (.filterCurrent c) cur env) ∧
+    NoNullResult (ieval root (.filterAndProject l c r) cur env) ∧
+    NoNullResult (ieval root (.filterAndProjectCurrent c r) cur env) ∧
+    NoNullResult (ieval root (.flatten l) cur env) ∧
+    NoNullResult (ieval root .flattenCurrent cur env) ∧
+    NoNullResult (ieval root (.flattenAndProject l r) cur env) ∧
+    NoNullResult (ieval root (.flattenAndProjectCurrent r) cur env) ∧
+    NoNullResult (ieval root (.objectValues l) cur env) ∧
+    NoNullResult (ieval root .objectValuesCurrent cur env) ∧
+    NoNullResult (ieval root (.projectObject l r) cur env) ∧
+    NoNullResult (ieval root (.projectObjectCurrent r) cur env) ∧
+    NoNullResult (ieval root (.pruneArray l) cur env) ∧
+    NoNullResult (ieval root .pruneArrayCurrent cur env) := by
+  refine ⟨ieval_projectArray_no_null root l r cur env, ?_, ?_, ?_, ?_, ?_, ?_, ?_, ?_, ?_, ?_, ?_, ?_, ?_, ?_, ?_⟩ <;>
+    rw [ieval_desugar] <;> simp only [desugar]
+  · exact seval_proj_no_null _ _ _ _ _
+  · exact seval_filterProj_no_null _ _ _ _ _ _
+  · exact seval_filterProj_no_null _ _ _ _ _ _
+  · exact seval_filterProj_no_null _ _ _ _ _ _
+  · exact seval_filterProj_no_null _ _ _ _ _ _
+  · exact seval_flatProj_no_null _ _ _ _ _
+  · exact seval_flatProj_no_null _ _ _ _ _
+  · exact seval_flatProj_no_null _ _ _ _ _
+  · exact seval_flatProj_no_null _ _ _ _ _
+  · exact seval_valueProj_no_null _ _ _ _ _
+  · exact seval_valueProj_no_null _ _ _ _ _
+  · exact seval_valueProj_no_null _ _ _ _ _
+  · exact seval_valueProj_no_null _ _ _ _ _
+  · exact seval_prune_no_null _ _ _ _
+  · exact seval_prune_no_null _ _ _ _
+
+example : ieval .null (.flattenAndProjectCurrent (.field [97]))
+    (.arr .plain [.arr .plain [.obj [([97], .bool true)], .obj []], .obj [([97], .null)]]) []
+    = .ok (.arr .plain [.bool true]) := rfl
+
+/-! ## c. the projections are "map, then drop nulls" -/
+
+theorem mapPrune_spec (f : Val → Res Val) (g : Val → Val) : ∀ (xs : List Val), (∀ x ∈ xs, f x = .ok (g x)) →
+    mapPrune f xs = .ok ((xs.map g).filter (fun y => !y.isNull))
+  | [], _ => rfl
+  | x :: xs, h => by
+    have hx := h x (List.mem_cons_self ..)
+    have ih := mapPrune_spec f g xs (fun y hy => h y (List.mem_cons_of_mem _ hy))
+    simp only [mapPrune, hx, ih, Res.ok_bind, Res.pure_eq, List.map_cons, List.filter_cons]
+    cases (g x).isNull <;> simp
+
+theorem filterMapPrune_spec (c f : Val → Res Val) (cv g : Val → Val) : ∀ (xs : List Val),
+    (∀ x ∈ xs, c x = .ok (cv x)) → (∀ x ∈ xs, isTrue (cv x) = true → f x = .ok (g x)) →
+    filterMapPrune c f xs = .ok (((xs.filter (fun x => isTrue (cv x))).map g).filter (fun y => !y.isNull))
+  | [], _, _ => rfl
+  | x :: xs, hc, hf => by
+    have hcx := hc x (List.mem_cons_self ..)
+    have ih := filterMapPrune_spec c f cv g xs (fun y hy => hc y (List.mem_cons_of_mem _ hy))
+      (fun y hy => hf y (List.mem_cons_of_mem _ hy))
+    simp only [filterMapPrune, hcx, Res.ok_bind, List.filter_cons]
+    cases ht : isTrue (cv x)
+    · simp only [Bool.false_eq_true, if_false, ih]
+    · have hfx := hf x (List.mem_cons_self ..) ht
+      simp only [if_true, hfx, ih, Res.ok_bind, Res.pure_eq, List.map_cons, List.filter_cons]
+      cases (g x).isNull <;> simp
+
+/-- array projection `xs[*].f` on a JSON array: apply `f` to every element, drop the null results -/
+theorem projectArray_spec (f : Val → Res Val) (g : Val → Val) (xs : List Val) (h : ∀ x ∈ xs, f x = .ok (g x)) :
+    projectArray f (.arr .plain xs) = .ok (.arr .plain ((xs.map g).filter (fun y => !y.isNull))) := by
+  simp only [projectArray, mapPrune_spec f g xs h, Res.ok_bind, Res.pure_eq, widen_ok]
+  rfl
+
+/-- filter projection `xs[?c].f`: keep the elements whose condition is truthy, apply `f`, drop the null results -/
+theorem filterAndProjectArray_spec (c f : Val → Res Val) (cv g : Val → Val) (xs : List Val)
+    (hc : ∀ x ∈ xs, c x = .ok (cv x)) (hf : ∀ x ∈ xs, isTrue (cv x) = true → f x = .ok (g x)) :
+    filterAndProjectArray c f (.arr .plain xs)
+      = .ok (.arr .plain (((xs.filter (fun x => isTrue (cv x))).map g).filter (fun y => !y.isNull))) := by
+  simp only [filterAndProjectArray, filterMapPrune_spec c f cv g xs hc hf, Res.ok_bind, Res.pure_eq, widen_ok]
+  rfl
+
+/-- one level of flattening of one element: an array contributes its non-null elements, null nothing,
+    anything else itself -/
+def flatOne : Val → List Val
+  | .arr _ ys => ys.filter (fun y => !y.isNull)
+  | .null => []
+  | x => [x]
+
+theorem flattenElems_eq_flatMap : ∀ (xs : List Val), flattenElems xs = xs.flatMap flatOne
+  | [] => rfl
+  | x :: rest => by
+    have ih := flattenElems_eq_flatMap rest
+    cases x <;> simp only [flattenElems, List.flatMap_cons, flatOne, ih, List.cons_append, List.nil_append]
+
+/-- the elements of `flatten` -/
+theorem flatten_spec (t : ATag) (xs : List Val) :
+    flatten (.arr t xs) = .arr (flattenTag t xs) (xs.flatMap flatOne) := by
+  simp only [flatten, flattenElems_eq_flatMap]
+
+theorem enum2_plain (xs : List Val) : enum2 .plain xs = false := rfl
+
+/-- for JSON data (every array `.plain`) the result is `.plain` -/
+theorem flattenTag_plain (xs : List Val) (h : ∀ x ∈ xs, ∀ t ys, x = .arr t ys → t = .plain) :
+    flattenTag .plain xs = .plain := by
+  simp only [flattenTag, enum2_plain, Bool.false_or]
+  rw [if_neg]
+  intro hany
+  obtain ⟨x, hx, hp⟩ := List.any_eq_true.mp hany
+  cases x with
+  | arr t ys =>
+    have := h _ hx t ys rfl
+    subst this
+    simp [enum2] at hp
+  | _ => cases hp
+
+theorem flatten_plain_spec (xs : List Val) (h : ∀ x ∈ xs, ∀ t ys, x = .arr t ys → t = .plain) :
+    flatten (.arr .plain xs) = .arr .plain (xs.flatMap flatOne) := by
+  rw [flatten_spec, flattenTag_plain xs h]
+
+/-- flatten projection `xs[].f`: the visited elements are one level of concatenation (nulls kept: they are
+    projected, and `f` may map null to a non-null value), then "map, drop nulls" -/
+def flatOneKeep : Val → List Val
+  | .arr _ ys => ys
+  | x => [x]
+
+theorem flattenForProject_eq_flatMap : ∀ (xs : List Val), flattenForProject xs = xs.flatMap flatOneKeep
+  | [] => rfl
+  | x :: rest => by
+    have ih := flattenForProject_eq_flatMap rest
+    cases x <;> simp only [flattenForProject, List.flatMap_cons, flatOneKeep, ih, List.cons_append, List.nil_append]
+
+theorem flattenAndProjectArray_spec (f : Val → Res Val) (g : Val → Val) (t : ATag) (xs : List Val)
+    (h : ∀ x ∈ xs.flatMap flatOneKeep, f x = .ok (g x)) :
+    flattenAndProjectArray f (.arr t xs)
+      = .ok (.arr (flattenTag t xs) (((xs.flatMap flatOneKeep).map g).filter (fun y => !y.isNull))) := by
+  simp only [flattenAndProjectArray, flattenForProject_eq_flatMap, mapPrune_spec f g _ h, Res.ok_bind, Res.pure_eq,
+    widen_ok]
+
+/-- object projection `obj.*.f`: the member values in key order, "map, drop nulls", tagged `.enum` (Go ranges over
+    a map: the order of the result is unspecified) -/
+theorem projectObject_spec (f : Val → Res Val) (g : Val → Val) (kvs : List (Bytes × Val))
+    (h : ∀ x ∈ kvs.map Prod.snd, f x = .ok (g x)) :
+    projectObject f (.obj kvs) = .ok (.arr .enum (((kvs.map Prod.snd).map g).filter (fun y => !y.isNull))) := by
+  simp only [projectObject, mapPrune_spec f g _ h, Res.ok_bind, Res.pure_eq, widen_ok]
+
+/-- `l[*]` without a right-hand side: the array without its nulls -/
+theorem pruneArray_spec (xs : List Val) :
+    pruneArray (.arr .plain xs) = .arr .plain (xs.filter (fun y => !y.isNull)) := by
+  simp only [pruneArray]
+  cases hany : xs.any Val.isNull
+  · simp only [Bool.false_eq_true, if_false, Val.arr.injEq, true_and]
+    symm
+    apply List.filter_eq_self.mpr
+    intro y hy
+    simp [any_isNull_false hany y hy]
+  · rfl
+
+/-- **proj_spec** -/
+theorem proj_spec (c f : Val → Res Val) (cv g : Val → Val) (xs : List Val) (kvs : List (Bytes × Val))
+    (hc : ∀ x, c x = .ok (cv x)) (hf : ∀ x, f x = .ok (g x)) :
+    projectArray f (.arr .plain xs) = .ok (.arr .plain ((xs.map g).filter (fun y => !y.isNull))) ∧
+    filterAndProjectArray c f (.arr .plain xs)
+      = .ok (.arr .plain (((xs.filter (fun x => isTrue (cv x))).map g).filter (fun y => !y.isNull))) ∧
+    flatten (.arr .plain xs) = .arr (flattenTag .plain xs) (xs.flatMap flatOne) ∧
+    flattenAndProjectArray f (.arr .plain xs)
+      = .ok (.arr (flattenTag .plain xs) (((xs.flatMap flatOneKeep).map g).filter (fun y => !y.isNull))) ∧
+    projectObject f (.obj kvs) = .ok (.arr .enum (((kvs.map Prod.snd).map g).filter (fun y => !y.isNull))) ∧
+    objectValues (.obj kvs) = .arr .enum ((kvs.map Prod.snd).filter (fun y => !y.isNull)) ∧
+    pruneArray (.arr .plain xs) = .arr .plain (xs.filter (fun y => !y.isNull)) :=
+  ⟨projectArray_spec f g xs (fun x _ => hf x),
+   filterAndProjectArray_spec c f cv g xs (fun x _ => hc x) (fun x _ _ => hf x),
+   flatten_spec .plain xs,
+   flattenAndProjectArray_spec f g .plain xs (fun x _ => hf x),
+   projectObject_spec f g kvs (fun x _ => hf x), rfl, pruneArray_spec xs⟩
+
+/-- non-vacuity: `[?@].a` with `g = field "a"`, on `[{"a":1}, {}, null, {"a":null}]` -/
+example : filterAndProjectArray (fun v => .ok v) (fun v => .ok (field [97] v))
+    (.arr .plain [.obj [([97], .num (.int .int 1))], .obj [], .null, .obj [([97], .null)]])
+    = .ok (.arr .plain [.num (.int .int 1)]) := rfl
+example : [Val.arr .plain [.bool true, .null], .null, .bool false].flatMap flatOne = [.bool true, .bool false] := rfl
+example : flatten (.arr .plain [.arr .plain [.bool true, .null, .arr .plain [.null]], .null, .bool false])
+    = .arr .plain [.bool true, .arr .plain [.null], .bool false] := rfl
+example : projectObject (fun v => .ok (field [120] v))
+    (.obj [([97], .obj [([120], .bool true)]), ([98], .obj []), ([99], .obj [([120], .bool false)])])
+    = .ok (.arr .enum [.bool true, .bool false]) := rfl
+
+/-! ## d. absent or wrongly-typed selections give null, never an error -/
+
+theorem field_obj (k : Bytes) (kvs : List (Bytes × Val)) : field k (.obj kvs) = (objLookup k kvs).getD .null := rfl
+
+theorem field_non_object (k : Bytes) (v : Val) (h : ∀ kvs, v ≠ .obj kvs) : field k v = .null := by
+  cases v with
+  | obj kvs => exact absurd rfl (h kvs)
+  | _ => rfl
+
+theorem field_absent (k : Bytes) (kvs : List (Bytes × Val)) (h : objLookup k kvs = none) :
+    field k (.obj kvs) = .null := by
+  simp only [field, h, Option.getD_none]
+
+theorem field_present (k : Bytes) (kvs : List (Bytes × Val)) (x : Val) (h : objLookup k kvs = some x) :
+    field k (.obj kvs) = x := by
+  simp only [field, h, Option.getD_some]
+
+/-- `field k v` is non-null only for an object that has `k` -/
+theorem field_ne_null (k : Bytes) (v : Val) (h : field k v ≠ .null) :
+    ∃ kvs x, v = .obj kvs ∧ objLookup k kvs = some x ∧ field k v = x := by
+  cases v with
+  | obj kvs =>
+    cases hl : objLookup k kvs with
+    | none => exact absurd (field_absent k kvs hl) h
+    | some x => exact ⟨kvs, x, rfl, hl, field_present k kvs x hl⟩
+  | _ => exact absurd rfl h
+
+theorem index_non_array (v : Val) (i : Int) (h : ∀ t xs, v ≠ .arr t xs) : index v i = .ok .null := by
+  cases v with
+  | arr t xs => exact absurd rfl (h t xs)
+  | _ => rfl
+
+theorem index_out_of_range (t : ATag) (xs : List Val) (i : Int)
+    (h : i ≥ (xs.length : Int) ∨ i < -(xs.length : Int)) : index (.arr t xs) i = .ok .null := by
+  simp only [index]
+  have : (if i < 0 then i + (xs.length : Int) else i) < 0 ∨ (if i < 0 then i + (xs.length : Int) else i) ≥ xs.length := by
+    split <;> omega
+  simp only [this, if_true]
+
+theorem index_nonneg (xs : List Val) (i : Int) (h0 : 0 ≤ i) (h1 : i < xs.length) :
+    index (.arr .plain xs) i = .ok (xs[i.toNat]'(by omega)) := by
+  have hi : ¬ i < 0 := by omega
+  have h2 : ¬ (i ≥ xs.length) := by omega
+  have hlt : i.toNat < xs.length := by omega
+  simp only [index, enum2_plain, Bool.false_eq_true, if_false, hi, h2, false_or, List.getD_eq_getElem?_getD,
+    List.getElem?_eq_getElem hlt, Option.getD_some]
+
+theorem index_neg (xs : List Val) (i : Int) (h0 : i < 0) (h1 : -(xs.length : Int) ≤ i) :
+    index (.arr .plain xs) i = .ok (xs[((xs.length : Int) + i).toNat]'(by omega)) := by
+  have h2 : ¬ (i + (xs.length : Int) < 0 ∨ i + (xs.length : Int) ≥ xs.length) := by omega
+  have hlt : (i + (xs.length : Int)).toNat < xs.length := by omega
+  have he : (xs.length : Int) + i = i + xs.length := by omega
+  simp only [index, enum2_plain, Bool.false_eq_true, if_false, h0, if_true, h2, List.getD_eq_getElem?_getD,
+    List.getElem?_eq_getElem hlt, Option.getD_some, he]
+
+theorem index_never_errors (v : Val) (i : Int) (cs : List Cat) : index v i ≠ .err cs := by
+  cases v with
+  | arr t xs =>
+    simp only [index]
+    by_cases h1 : ((if i < 0 then i + (xs.length : Int) else i) < 0 ∨
+        (if i < 0 then i + (xs.length : Int) else i) ≥ (xs.length : Int))
+    · rw [if_pos h1]; intro h; cases h
+    · rw [if_neg h1]
+      cases enum2 t xs
+      · simp only [Bool.false_eq_true, if_false]; intro h; cases h
+      · simp only [if_true]; intro h; cases h
+  | _ => intro h; cases h
+
+theorem slice_non_array_string (v : Val) (a b : Int) (h1 : ∀ t xs, v ≠ .arr t xs) (h2 : ∀ s, v ≠ .str s) :
+    slice v a b = .ok .null := by
+  cases v with
+  | arr t xs => exact absurd rfl (h1 t xs)
+  | str s => exact absurd rfl (h2 s)
+  | _ => rfl
+
+theorem sliceStep_non_array_string (v : Val) (a b s : Int) (h1 : ∀ t xs, v ≠ .arr t xs) (h2 : ∀ s, v ≠ .str s) :
+    sliceStep v a b s = .ok .null := by
+  cases v with
+  | arr t xs => exact absurd rfl (h1 t xs)
+  | str s => exact absurd rfl (h2 s)
+  | _ => rfl
+
+theorem slice_never_errors (v : Val) (a b : Int) (cs : List Cat) : slice v a b ≠ .err cs := by
+  cases v with
+  | arr t xs =>
+    simp only [slice]
+    split
+    · intro h; cases h
+    · split
+      · intro h; cases h
+      · split <;> (intro h; cases h)
+  | str s =>
+    simp only [slice]
+    split <;> (intro h; cases h)
+  | _ => intro h; cases h
+
+theorem sliceStep_never_errors (v : Val) (a b s : Int) (cs : List Cat) : sliceStep v a b s ≠ .err cs := by
+  cases v with
+  | arr t xs =>
+    simp only [sliceStep]
+    split
+    · intro h; cases h
+    · split <;> (intro h; cases h)
+  | str s =>
+    simp only [sliceStep]
+    split
+    · intro h; cases h
+    · split <;> (intro h; cases h)
+  | _ => intro h; cases h
+
+theorem projectArray_non_array (f : Val → Res Val) (v : Val) (h : ∀ t xs, v ≠ .arr t xs) :
+    projectArray f v = .ok .null := by
+  cases v with
+  | arr t xs => exact absurd rfl (h t xs)
+  | _ => rfl
+
+theorem filterAndProjectArray_non_array (c f : Val → Res Val) (v : Val) (h : ∀ t xs, v ≠ .arr t xs) :
+    filterAndProjectArray c f v = .ok .null := by
+  cases v with
+  | arr t xs => exact absurd rfl (h t xs)
+  | _ => rfl
+
+theorem filterArray_non_array (c : Val → Res Val) (v : Val) (h : ∀ t xs, v ≠ .arr t xs) :
+    filterArray c v = .ok .null := by
+  cases v with
+  | arr t xs => exact absurd rfl (h t xs)
+  | _ => rfl
+
+theorem flattenAndProjectArray_non_array (f : Val → Res Val) (v : Val) (h : ∀ t xs, v ≠ .arr t xs) :
+    flattenAndProjectArray f v = .ok .null := by
+  cases v with
+  | arr t xs => exact absurd rfl (h t xs)
+  | _ => rfl
+
+theorem projectObject_non_object (f : Val → Res Val) (v : Val) (h : ∀ kvs, v ≠ .obj kvs) :
+    projectObject f v = .ok .null := by
+  cases v with
+  | obj kvs => exact absurd rfl (h kvs)
+  | _ => rfl
+
+theorem pruneArray_non_array (v : Val) (h : ∀ t xs, v ≠ .arr t xs) : pruneArray v = .null := by
+  cases v with
+  | arr t xs => exact absurd rfl (h t xs)
+  | _ => rfl
+
+theorem flatten_non_array (v : Val) (h : ∀ t xs, v ≠ .arr t xs) : flatten v = .null := by
+  cases v with
+  | arr t xs => exact absurd rfl (h t xs)
+  | _ => rfl
+
+theorem objectValues_non_object (v : Val) (h : ∀ kvs, v ≠ .obj kvs) : objectValues v = .null := by
+  cases v with
+  | obj kvs => exact absurd rfl (h kvs)
+  | _ => rfl
+
+/-! the projections raise no error of their own: an error outcome comes from the projected expression -/
+
+theorem widen_eq_err {α} {t : ATag} {xs : List Val} {fs : List (Val → Res Val)} {extra : List Cat} {r : Res α}
+    {cs : List Cat} (h : widen t xs fs extra r = .err cs) : ∃ cs', r = .err cs' := by
+  cases r with
+  | err cs' => exact ⟨cs', rfl⟩
+  | _ => cases h
+
+theorem mapPrune_err (f : Val → Res Val) : ∀ (xs : List Val) (cs : List Cat), mapPrune f xs = .err cs →
+    ∃ x ∈ xs, f x = .err cs
+  | [], cs, h => by cases h
+  | x :: xs, cs, h => by
+    simp only [mapPrune] at h
+    cases hf : f x with
+    | ok p =>
+      rw [hf] at h
+      simp only [Res.ok_bind] at h
+      cases hr : mapPrune f xs with
+      | err cs' =>
+        rw [hr] at h
+        simp only [Res.err_bind, Res.err.injEq] at h
+        subst h
+        obtain ⟨y, hy, hfy⟩ := mapPrune_err f xs _ hr
+        exact ⟨y, List.mem_cons_of_mem _ hy, hfy⟩
+      | _ => rw [hr] at h; cases h
+    | err cs' =>
+      rw [hf] at h
+      simp only [Res.err_bind, Res.err.injEq] at h
+      subst h
+      exact ⟨x, List.mem_cons_self .., hf⟩
+    | _ => rw [hf] at h; cases h
+
+theorem filterMapPrune_err (c f : Val → Res Val) : ∀ (xs : List Val) (cs : List Cat),
+    filterMapPrune c f xs = .err cs → ∃ x ∈ xs, c x = .err cs ∨ f x = .err cs
+  | [], cs, h => by cases h
+  | x :: xs, cs, h => by
+    simp only [filterMapPrune] at h
+    cases hc : c x with
+    | ok b =>
+      rw [hc] at h
+      simp only [Res.ok_bind] at h
+      cases hb : isTrue b
+      · rw [hb] at h
+        simp only [Bool.false_eq_true, if_false] at h
+        obtain ⟨y, hy, hfy⟩ := filterMapPrune_err c f xs _ h
+        exact ⟨y, List.mem_cons_of_mem _ hy, hfy⟩
+      · rw [hb] at h
+        simp only [if_true] at h
+        cases hf : f x with
+        | ok p =>
+          rw [hf] at h
+          simp only [Res.ok_bind] at h
+          cases hr : filterMapPrune c f xs with
+          | err cs' =>
+            rw [hr] at h
+            simp only [Res.err_bind, Res.err.injEq] at h
+            subst h
+            obtain ⟨y, hy, hfy⟩ := filterMapPrune_err c f xs _ hr
+            exact ⟨y, List.mem_cons_of_mem _ hy, hfy⟩
+          | _ => rw [hr] at h; cases h
+        | err cs' =>
+          rw [hf] at h
+          simp only [Res.err_bind, Res.err.injEq] at h
+          subst h
+          exact ⟨x, List.mem_cons_self .., Or.inr hf⟩
+        | _ => rw [hf] at h; cases h
+    | err cs' =>
+      rw [hc] at h
+      simp only [Res.err_bind, Res.err.injEq] at h
+      subst h
+      exact ⟨x, List.mem_cons_self .., Or.inl hc⟩
+    | _ => rw [hc] at h; cases h
+
+/-- an error of `projectArray` is an error of `f` on some element -/
+theorem projectArray_err_from_f (f : Val → Res Val) (v : Val) (cs : List Cat) (h : projectArray f v = .err cs) :
+    ∃ t xs, v = .arr t xs ∧ ∃ x ∈ xs, ∃ cs', f x = .err cs' := by
+  cases v with
+  | arr t xs =>
+    simp only [projectArray] at h
+    obtain ⟨cs', h2⟩ := widen_eq_err h
+    cases hr : mapPrune f xs with
+    | err c2 =>
+      obtain ⟨x, hx, hfx⟩ := mapPrune_err f xs c2 hr
+      exact ⟨t, xs, rfl, x, hx, c2, hfx⟩
+    | _ => rw [hr] at h2; cases h2
+  | _ => cases h
+
+theorem filterAndProjectArray_err_from_f (c f : Val → Res Val) (v : Val) (cs : List Cat)
+    (h : filterAndProjectArray c f v = .err cs) :
+    ∃ t xs, v = .arr t xs ∧ ∃ x ∈ xs, ∃ cs', c x = .err cs' ∨ f x = .err cs' := by
+  cases v with
+  | arr t xs =>
+    simp only [filterAndProjectArray] at h
+    obtain ⟨cs', h2⟩ := widen_eq_err h
+    cases hr : filterMapPrune c f xs with
+    | err c2 =>
+      obtain ⟨x, hx, hfx⟩ := filterMapPrune_err c f xs c2 hr
+      exact ⟨t, xs, rfl, x, hx, c2, hfx⟩
+    | _ => rw [hr] at h2; cases h2
+  | _ => cases h
+
+theorem flattenAndProjectArray_err_from_f (f : Val → Res Val) (v : Val) (cs : List Cat)
+    (h : flattenAndProjectArray f v = .err cs) :
+    ∃ t xs, v = .arr t xs ∧ ∃ x ∈ xs.flatMap flatOneKeep, ∃ cs', f x = .err cs' := by
+  cases v with
+  | arr t xs =>
+    simp only [flattenAndProjectArray] at h
+    obtain ⟨cs', h2⟩ := widen_eq_err h
+    cases hr : mapPrune f (flattenForProject xs) with
+    | err c2 =>
+      obtain ⟨x, hx, hfx⟩ := mapPrune_err f _ c2 hr
+      rw [flattenForProject_eq_flatMap] at hx
+      exact ⟨t, xs, rfl, x, hx, c2, hfx⟩
+    | _ => rw [hr] at h2; cases h2
+  | _ => cases h
+
+theorem projectObject_err_from_f (f : Val → Res Val) (v : Val) (cs : List Cat) (h : projectObject f v = .err cs) :
+    ∃ kvs, v = .obj kvs ∧ ∃ x ∈ kvs.map Prod.snd, ∃ cs', f x = .err cs' := by
+  cases v with
+  | obj kvs =>
+    simp only [projectObject] at h
+    obtain ⟨cs', h2⟩ := widen_eq_err h
+    cases hr : mapPrune f (kvs.map Prod.snd) with
+    | err c2 =>
+      obtain ⟨x, hx, hfx⟩ := mapPrune_err f _ c2 hr
+      exact ⟨kvs, rfl, x, hx, c2, hfx⟩
+    | _ => rw [hr] at h2; cases h2
+  | _ => cases h
+
+/-- **select_null**: a selection on a value of the wrong type, or of an absent member/element, is null -/
+theorem select_null (k : Bytes) (v : Val) (i a b s : Int) (c f : Val → Res Val) :
+    ((∀ kvs, v ≠ .obj kvs) → field k v = .null) ∧
+    (∀ kvs, objLookup k kvs = none → field k (.obj kvs) = .null) ∧
+    ((∀ t xs, v ≠ .arr t xs) → index v i = .ok .null) ∧
+    (∀ t xs, (i ≥ (List.length xs : Int) ∨ i < -(List.length xs : Int)) → index (.arr t xs) i = .ok .null) ∧
+    ((∀ t xs, v ≠ .arr t xs) → (∀ s, v ≠ .str s) → slice v a b = .ok .null ∧ sliceStep v a b s = .ok .null) ∧
+    ((∀ t xs, v ≠ .arr t xs) → projectArray f v = .ok .null ∧ filterAndProjectArray c f v = .ok .null ∧
+      flattenAndProjectArray f v = .ok .null ∧ filterArray c v = .ok .null ∧ pruneArray v = .null ∧
+      flatten v = .null) ∧
+    ((∀ kvs, v ≠ .obj kvs) → projectObject f v = .ok .null ∧ objectValues v = .null) ∧
+    (∀ cs, index v i ≠ .err cs ∧ slice v a b ≠ .err cs ∧ sliceStep v a b s ≠ .err cs) :=
+  ⟨field_non_object k v, field_absent k, index_non_array v i, fun t xs => index_out_of_range t xs i,
+   fun h1 h2 => ⟨slice_non_array_string v a b h1 h2, sliceStep_non_array_string v a b s h1 h2⟩,
+   fun h => ⟨projectArray_non_array f v h, filterAndProjectArray_non_array c f v h,
+     flattenAndProjectArray_non_array f v h, filterArray_non_array c v h, pruneArray_non_array v h,
+     flatten_non_array v h⟩,
+   fun h => ⟨projectObject_non_object f v h, objectValues_non_object v h⟩,
+   fun cs => ⟨index_never_errors v i cs, slice_never_errors v a b cs, sliceStep_never_errors v a b s cs⟩⟩
+
+example : field [97] (.obj [([98], .bool true)]) = .null := rfl
+example : field [97] (.arr .plain [.obj [([97], .bool true)]]) = .null := rfl
+example : field [98] (.obj [([98], .bool true)]) = .bool true := rfl
+example : index (.arr .plain [.bool true, .bool false]) 2 = .ok .null := rfl
+example : index (.arr .plain [.bool true, .bool false]) (-3) = .ok .null := rfl
+example : index (.arr .plain [.bool true, .bool false]) (-2) = .ok (.bool true) := rfl
+example : index (.arr .plain [.bool true, .bool false]) 1 = .ok (.bool false) := rfl
+example : index (.str [97]) 0 = .ok .null := rfl
+example : slice (.obj []) 0 1 = .ok .null := rfl
+example : sliceStep (.num (.int .int 3)) 0 1 2 = .ok .null := rfl
+example : projectArray (fun _ => .err [Cat.invalidType]) (.obj []) = .ok .null := rfl
+example : projectObject (fun _ => .err [Cat.invalidType]) (.arr .plain [.null]) = .ok .null := rfl
+/-- the error of the projected expression is the error of the projection -/
+example : projectArray (fun _ => .err [Cat.invalidType]) (.arr .plain [.null]) = .err [Cat.invalidType] := rfl
+
+/-! ## e. multi-select -/
+
+theorem multiList_nonnull (root : Val) (chk : Bool) (es : List Tree) (cur : Val) (env : Env) (h : cur.isNull = false) :
+    seval root (.multiList chk es) cur env = (sevalList root es cur env >>= fun vs => .ok (.arr .plain vs)) := by
+  simp only [seval, h, Bool.and_false, Bool.false_eq_true, if_false, Res.pure_eq]
+
+theorem multiHash_nonnull (root : Val) (chk : Bool) (kvs : List (Bytes × Tree)) (cur : Val) (env : Env)
+    (h : cur.isNull = false) :
+    seval root (.multiHash chk kvs) cur env = (sevalFields root kvs cur env >>= fun fs => .ok (.obj fs)) := by
+  simp only [seval, h, Bool.and_false, Bool.false_eq_true, if_false, Res.pure_eq]
+
+theorem multiList_null (root : Val) (es : List Tree) (env : Env) :
+    seval root (.multiList true es) .null env = .ok .null := by
+  simp only [seval, Val.isNull, Bool.and_self, if_true]
+
+theorem multiHash_null (root : Val) (kvs : List (Bytes × Tree)) (env : Env) :
+    seval root (.multiHash true kvs) .null env = .ok .null := by
+  simp only [seval, Val.isNull, Bool.and_self, if_true]
+
+theorem sub_multiList_null (root : Val) (l : Tree) (es : List Tree) (cur : Val) (env : Env)
+    (h : seval root l cur env = .ok .null) : seval root (.sub l (.multiList true es)) cur env = .ok .null := by
+  simp only [seval, h, Res.ok_bind, Val.isNull, Bool.and_self, if_true]
+
+theorem sub_multiHash_null (root : Val) (l : Tree) (kvs : List (Bytes × Tree)) (cur : Val) (env : Env)
+    (h : seval root l cur env = .ok .null) : seval root (.sub l (.multiHash true kvs)) cur env = .ok .null := by
+  simp only [seval, h, Res.ok_bind, Val.isNull, Bool.and_self, if_true]
+
+/-- when every member evaluates, the list of the members' values, in order (nulls are kept) -/
+theorem sevalList_ok (root : Val) (g : Tree → Val) (cur : Val) (env : Env) : ∀ (es : List Tree),
+    (∀ e ∈ es, seval root e cur env = .ok (g e)) → sevalList root es cur env = .ok (es.map g)
+  | [], _ => by simp only [sevalList, List.map_nil]
+  | e :: es, h => by
+    have he := h e (List.mem_cons_self ..)
+    have ih := sevalList_ok root g cur env es (fun y hy => h y (List.mem_cons_of_mem _ hy))
+    simp only [sevalList, he, ih, Res.ok_bind, Res.pure_eq, List.map_cons]
+
+/-- when every member evaluates, the object of the members' values -/
+theorem sevalFields_ok (root : Val) (g : Tree → Val) (cur : Val) (env : Env) : ∀ (kvs : List (Bytes × Tree)),
+    (∀ kv ∈ kvs, seval root kv.2 cur env = .ok (g kv.2)) →
+    sevalFields root kvs cur env = .ok (kvs.foldr (fun kv acc => objInsert kv.1 (g kv.2) acc) [])
+  | [], _ => by simp only [sevalFields, List.foldr_nil]
+  | (k, t) :: rest, h => by
+    have he := h (k, t) (List.mem_cons_self ..)
+    have ih := sevalFields_ok root g cur env rest (fun y hy => h y (List.mem_cons_of_mem _ hy))
+    simp only [sevalFields, he, ih, combineUnordered, List.foldr_cons]
+
+/-- the first failing member of a multi-select list is its outcome -/
+theorem sevalList_cons (root : Val) (e : Tree) (es : List Tree) (cur : Val) (env : Env) :
+    sevalList root (e :: es) cur env
+      = (seval root e cur env >>= fun v => sevalList root es cur env >>= fun vs => .ok (v :: vs)) := by
+  simp only [sevalList, Res.pure_eq]
+
+/-- **multiselect** -/
+theorem multiselect (root : Val) (chk : Bool) (l : Tree) (es : List Tree) (kvs : List (Bytes × Tree)) (cur : Val)
+    (env : Env) :
+    (cur.isNull = false →
+      seval root (.multiList chk es) cur env = (sevalList root es cur env >>= fun vs => .ok (.arr .plain vs))) ∧
+    (cur.isNull = false →
+      seval root (.multiHash chk kvs) cur env = (sevalFields root kvs cur env >>= fun fs => .ok (.obj fs))) ∧
+    seval root (.multiList true es) .null env = .ok .null ∧
+    seval root (.multiHash true kvs) .null env = .ok .null ∧
+    (seval root l cur env = .ok .null → seval root (.sub l (.multiList true es)) cur env = .ok .null) ∧
+    (seval root l cur env = .ok .null → seval root (.sub l (.multiHash true kvs)) cur env = .ok .null) :=
+  ⟨multiList_nonnull root chk es cur env, multiHash_nonnull root chk kvs cur env, multiList_null root es env,
+   multiHash_null root kvs env, sub_multiList_null root l es cur env, sub_multiHash_null root l kvs cur env⟩
+
+/-- `[a, b]` on `{"a":1}` is `[1, null]`: nulls are kept in a multi-select list -/
+example : seval .null (.multiList true [.field [97], .field [98]]) (.obj [([97], .num (.int .int 1))]) []
+    = .ok (.arr .plain [.num (.int .int 1), .null]) := rfl
+example : seval .null (.multiHash true [([120], .field [97]), ([121], .field [98])]) (.obj [([97], .num (.int .int 1))]) []
+    = .ok (.obj [([120], .num (.int .int 1)), ([121], .null)]) := rfl
+/-- `foo.[a]` on `{}` is null, not `[null]` -/
+example : seval .null (.sub (.field [102]) (.multiList true [.field [97]])) (.obj []) [] = .ok .null := rfl
+example : seval .null (.sub (.field [102]) (.multiHash true [([120], .field [97])])) (.obj []) [] = .ok .null := rfl
+
+/-! ## f. sub-expressions, literal, current node, root node -/
+
+theorem sub_eq (root : Val) (l r : Tree) (cur : Val) (env : Env) :
+    seval root (.sub l r) cur env = (seval root l cur env >>= fun a => seval root r a env) := by
+  simp only [seval]
+
+theorem literal (root : Val) (v : Val) (cur : Val) (env : Env) : seval root (.lit v) cur env = .ok v := by
+  simp only [seval]
+
+theorem current (root : Val) (cur : Val) (env : Env) : seval root .current cur env = .ok cur := by
+  simp only [seval]
+
+theorem root_node (root : Val) (cur : Val) (env : Env) : seval root .root cur env = .ok root := by
+  simp only [seval]
+
+/-- inside any sub-expression `$` is still the document -/
+theorem root_stable (root : Val) (l : Tree) (cur : Val) (env : Env) :
+    seval root (.sub l .root) cur env = (seval root l cur env >>= fun _ => .ok root) := by
+  simp only [seval]
+
+/-- … and inside a projection: every element is mapped to the document -/
+theorem root_stable_proj (root : Val) (l : Tree) (cur : Val) (env : Env) (xs : List Val)
+    (h : seval root l cur env = .ok (.arr .plain xs)) :
+    seval root (.proj l .root) cur env
+      = .ok (.arr .plain ((xs.map (fun _ => root)).filter (fun y => !y.isNull))) := by
+  simp only [seval, h, Res.ok_bind]
+  exact projectArray_spec _ (fun _ => root) xs (fun _ _ => rfl)
+
+/-- a failing left side is the outcome of the sub-expression; the right side is not evaluated -/
+theorem sub_left_err (root : Val) (l r : Tree) (cur : Val) (env : Env) (cs : List Cat)
+    (h : seval root l cur env = .err cs) : seval root (.sub l r) cur env = .err cs := by
+  simp only [seval, h, Res.err_bind]
+
+theorem pipe_and_sub (root : Val) (l r : Tree) (v cur : Val) (env : Env) :
+    seval root (.sub l r) cur env = (seval root l cur env >>= fun a => seval root r a env) ∧
+    seval root (.lit v) cur env = .ok v ∧
+    seval root .current cur env = .ok cur ∧
+    seval root .root cur env = .ok root ∧
+    seval root (.sub l .root) cur env = (seval root l cur env >>= fun _ => .ok root) :=
+  ⟨sub_eq root l r cur env, literal root v cur env, current root cur env, root_node root cur env,
+   root_stable root l cur env⟩
+
+/-- the same through the compiled node types: `l | r` and `l.r` both are `.pipe l r` -/
+theorem ieval_pipe (root : Val) (l r : INode) (cur : Val) (env : Env) :
+    ieval root (.pipe l r) cur env
+      = (seval root (desugar l) cur env >>= fun a => seval root (desugar r) a env) := by
+  rw [ieval_desugar]
+  simp only [desugar, seval]
+
+example : seval (.obj [([97], .obj [([98], .bool true)])]) (.sub (.field [97]) .root)
+    (.obj [([97], .obj [([98], .bool true)])]) [] = .ok (.obj [([97], .obj [([98], .bool true)])]) := rfl
+example : seval (.bool true) (.sub (.field [97]) (.field [98])) (.obj [([97], .obj [([98], .bool false)])]) []
+    = .ok (.bool false) := rfl
+example : seval (.bool true) (.proj .current .root) (.arr .plain [.null, .null]) []
+    = .ok (.arr .plain [.bool true, .bool true]) := rfl
+
+/-! ## g. a projection's right-hand side extends over the following selectors -/
+
+/-- `l[*].r1.r2`: both selectors are applied to each element (not `r2` to the projected array) -/
+theorem rhs_extends (root : Val) (l r1 r2 : Tree) (cur : Val) (env : Env) (xs : List Val)
+    (h : seval root l cur env = .ok (.arr .plain xs)) :
+    seval root (.proj l (.sub r1 r2)) cur env
+      = projectArray (fun v => seval root r1 v env >>= fun a => seval root r2 a env) (.arr .plain xs) := by
+  simp only [seval, h, Res.ok_bind]
+
+/-- the same for the other projection forms -/
+theorem rhs_extends_flat (root : Val) (l r1 r2 : Tree) (cur : Val) (env : Env) (a : Val)
+    (h : seval root l cur env = .ok a) :
+    seval root (.flatProj l (.sub r1 r2)) cur env
+      = flattenAndProjectArray (fun v => seval root r1 v env >>= fun a => seval root r2 a env) a := by
+  simp only [seval, h, Res.ok_bind]
+
+theorem rhs_extends_filter (root : Val) (l c r1 r2 : Tree) (cur : Val) (env : Env) (a : Val)
+    (h : seval root l cur env = .ok a) :
+    seval root (.filterProj l c (.sub r1 r2)) cur env
+      = filterAndProjectArray (fun v => seval root c v env)
+          (fun v => seval root r1 v env >>= fun a => seval root r2 a env) a := by
+  simp only [seval, h, Res.ok_bind]
+
+theorem rhs_extends_value (root : Val) (l r1 r2 : Tree) (cur : Val) (env : Env) (a : Val)
+    (h : seval root l cur env = .ok a) :
+    seval root (.valueProj l (.sub r1 r2)) cur env
+      = projectObject (fun v => seval root r1 v env >>= fun a => seval root r2 a env) a := by
+  simp only [seval, h, Res.ok_bind]
+
+/-- a pipe closes the projection: the right side sees the projected array -/
+theorem pipe_closes (root : Val) (l r1 r2 : Tree) (cur : Val) (env : Env) :
+    seval root (.sub (.proj l r1) r2) cur env
+      = (seval root (.proj l r1) cur env >>= fun arr => seval root r2 arr env) := by
+  simp only [seval]
+
+private def one : Val := .num (.int .int 1)
+private def two : Val := .num (.int .int 2)
+private def three : Val := .num (.int .int 3)
+private def four : Val := .num (.int .int 4)
+/-- `{"foo": [[1,2],[3,4]]}` -/
+private def doc : Val := .obj [([102, 111, 111], .arr .plain [.arr .plain [one, two], .arr .plain [three, four]])]
+
+/-- `foo[*][0]`: the index is applied to each element: `[1, 3]` -/
+example : seval doc (.proj (.field [102, 111, 111]) (.index 0)) doc [] = .ok (.arr .plain [one, three]) := rfl
+/-- `foo[*] | [0]`: the index is applied to the projected array: `[1, 2]` -/
+example : seval doc (.sub (.prune (.field [102, 111, 111])) (.index 0)) doc [] = .ok (.arr .plain [one, two]) := rfl
+example : seval doc (.sub (.proj (.field [102, 111, 111]) .current) (.index 0)) doc []
+    = .ok (.arr .plain [one, two]) := rfl
+
+/-- these two trees are what the parser builds for the two texts -/
+example : (match compile [102, 111, 111, 91, 42, 93, 91, 48, 93] with
+    | .ok n => (match desugar n with
+      | .proj (.field [102, 111, 111]) (.index 0) => true
+      | _ => false)
+    | _ => false) = true := by decide +kernel
+example : (match compile [102, 111, 111, 91, 42, 93, 32, 124, 32, 91, 48, 93] with
+    | .ok n => (match desugar n with
+      | .sub (.prune (.field [102, 111, 111])) (.index 0) => true
+      | _ => false)
+    | _ => false) = true := by decide +kernel
+
 end Jmes.C01
